@@ -19,7 +19,7 @@ static const char *const route_name[] = { "fam", "isal", "legacy" };
 static char rbuf[400];
 #define REPLAY(what, fam, c) (snprintf(rbuf, sizeof rbuf, "{\"engine\":\"bounds\",\"what\":\"%s\",\"fam\":\"%s\",\"seed\":%llu,\"case\":%llu}", what, fam, (unsigned long long) g_seed, (unsigned long long) (c)), snprintf(cur_replay, sizeof cur_replay, "%s", rbuf), rbuf)
 
-#define CTX_ALIGN 16
+#define CTX_ALIGN 8       /* struct isal_gcm_context_data carries no alignment attribute: uint64_t alignment */
 typedef struct { const char *name; gbuf_t g; int ro; uint8_t *copy; } barg_t;
 static barg_t bargs[16]; static int nb;
 static rng_t R;
